@@ -35,6 +35,8 @@ def gen(rng, tier):
             size = len(lists[li])
             cap = rng.choice([1, max(1, size - 1), size, size + 1, rng.randrange(1, 2 * size + 1)])
         op = {'list': li, 'cap': cap}
+        if rng.random() < 0.05:
+            op['tick'] = rng.choice([0.5, 6.0, 3600.0, 86400.0])
         if rng.random() < 0.15:
             op['perm'] = rng.randrange(2 ** 31)
         ops.append(op)
@@ -74,6 +76,9 @@ def nontrivial(h, v):
 
 
 def record(rep, h, v):
+    if v.get('unavailable'):
+        rep.add_counts(rep.probes, {'hist_driver_unavailable(signature changed; pipeline part still runs)': 1})
+        return
     rep.add_counts(rep.probes, {'hist_steps': v.get('steps', 0), 'hist_cap_binding_steps': v.get('binding_steps', 0),
                                 'hist_two_list_histories': 1 if len(h['lists']) > 1 else 0,
                                 'hist_cap_changes': sum(1 for a, b in zip(h['ops'], h['ops'][1:]) if a['cap'] != b['cap'])})
